@@ -11,6 +11,8 @@ NAMES = ["a", "b", "c"]
 # no default / an int default / None as default of an int-annotated parameter / a default declared through pydantic's Field(...)
 DEFAULTS = ["none", "int", "None", "field"]
 REC = []
+RET = [7]          # what the generated actor returns (set per scenario)
+RETURNS = [7, float("inf"), {"ratio": [1.5, float("-inf")]}]
 
 
 def build_fn(spec):
@@ -45,9 +47,9 @@ def build_fn(spec):
         elif kind == "VK":
             parts.append(f"**{name}")
     names = [s[0] for s in spec]
-    src = f"async def actor({', '.join(parts)}):\n    REC.append(dict({', '.join(f'{n}={n}' for n in names)}))\n    return 7\n"
+    src = f"async def actor({', '.join(parts)}):\n    REC.append(dict({', '.join(f'{n}={n}' for n in names)}))\n    return RET[0]\n"
     import pydantic
-    ns = {"Annotated": Annotated, "Depends": Depends, "provider": provider, "REC": REC, "Field": pydantic.Field}
+    ns = {"Annotated": Annotated, "Depends": Depends, "provider": provider, "REC": REC, "Field": pydantic.Field, "RET": RET}
     exec(src, ns)  # noqa: S102
     return ns["actor"], src
 
@@ -97,6 +99,8 @@ def h08_bind(S, n_max=2):
     if not valid(spec):
         S.cover("invalid-signature-skipped")
         return
+    ret = RETURNS[S.pick("return_value", len(RETURNS))] if n == 1 else 7
+    RET[0] = ret
     empty = S.flag("empty_payload")
     present = {}
     payload = {}
@@ -182,7 +186,7 @@ def h08_bind(S, n_max=2):
                 else:
                     S.check("parameter-gets-its-entry-or-default", got[name] == expect[name],
                             info=f"{cname}: {src.splitlines()[0]} payload={text!r}: {name}={got[name]!r}, expected {expect[name]!r}")
-            S.check("return-value-round-trips", success and json.loads(data) == 7, info=f"{cname}: {data!r}")
+            S.check("return-value-round-trips", success and json.loads(data) == ret, info=f"{cname}: returned {ret!r}, encoded as {data!r} (success={success})")
         # when must it run?  every required argument present and nothing that cannot be placed
         # BasicConverter hands unmatched entries to *args positionally, which Python cannot place behind
         # parameters that are passed by keyword: such a call fails (it never binds a wrong value)
@@ -237,6 +241,39 @@ def h08_noargs(S, backend="redis"):
     S.check("and-is-acknowledged", out["places"] == [], info=str(out["places"]))
 
 
+def h08_bucket_reuse(S):
+    """Two jobs in one worker run whose arguments travel through a bucket with the same explicit id, one after the other."""
+    import asyncio
+    from repid import Job, Router, Worker
+    from repid.converter import BasicConverter, DefaultConverter, PydanticConverter
+    from harness.common import World
+
+    cname, conv = [("basic", BasicConverter), ("pydantic", PydanticConverter), ("default", DefaultConverter)][S.pick("converter", 3)]
+    second_omits = S.flag("second_job_omits_the_optional_argument")
+    S.tag("converter", cname)
+    got = []
+
+    async def main(loop):
+        w = World(args_bucket=True)
+        await w.open(record=False)
+        r = Router()
+
+        @r.actor(converter=conv)
+        async def actor(a: int, b: int = 50):
+            got.append((a, b))
+
+        worker = Worker(routers=[r], handle_signals=[], _connection=w.conn, graceful_shutdown_time=1.0, messages_limit=2)
+        task = asyncio.create_task(worker.run())
+        await Job("actor", args={"a": 1, "b": 10}, id_="j1", args_id="shared-args", _connection=w.conn).enqueue()
+        await asyncio.sleep(0.05)
+        await Job("actor", args={"a": 2} if second_omits else {"a": 2, "b": 20}, id_="j2", args_id="shared-args", _connection=w.conn).enqueue()
+        await asyncio.wait_for(task, timeout=5)
+
+    run_async(main)
+    S.cover("bucket-id-reused")
+    S.check("each-job-gets-its-own-entries-and-defaults", got == [(1, 10), (2, 50 if second_omits else 20)], info=f"{cname}: actor calls {got}")
+
+
 HARNESSES = [
     Harness(name="H08-bind", scenario=h08_bind, workers=16, budget_s=900,
             params={"quick": {"n_max": 2}, "thorough": {"n_max": 3}},
@@ -247,6 +284,10 @@ HARNESSES = [
             functions=["converter.py:BasicConverter.convert_inputs", "converter.py:PydanticConverter.convert_inputs", "_processor.py:_Processor.actor_run"],
             covers=["bound", "required-missing", "empty-payload", "both-converters"]),
 ]
+HARNESSES.append(Harness(name="H08-bucket-reuse", scenario=h08_bucket_reuse,
+                         bounds={"jobs": "two, executed one after the other by one running worker, arguments through an argument bucket with the same explicit args_id",
+                                 "second job": "overrides or omits the optional argument", "converters": "Basic, Pydantic, Default"},
+                         functions=["_processor.py:_Processor.get_payload", "job.py:Job.enqueue"], covers=["bucket-id-reused"]))
 for _be in ("mem", "redis", "rabbit"):
     HARNESSES.append(Harness(name=f"H08-noargs-{_be}", scenario=h08_noargs, params={"quick": {"backend": _be}, "thorough": {"backend": _be}},
                              bounds={"job": "args=None or args={} through Job.enqueue(), the broker's wire format, a Worker", "converters": "Basic, Pydantic, Default"},
